@@ -201,6 +201,7 @@ def region_rcb_text(case):
     return False
 
 
+SHRINK_STRINGS = True
 REGIONS = {"rcb-text-value": region_rcb_text}
 
 
